@@ -74,14 +74,40 @@ func rvValid(v value) bool {
 	return ok
 }
 
-func rvRO(v value) bool {
+// roFlag distinguishes reflect's two read-only flags: a value reached
+// through an unexported non-embedded field stays read-only (sticky); one
+// reached through an unexported *embedded* field is read-only itself, but its
+// exported fields are accessible again.
+type roFlag int8
+
+const (
+	roNone   roFlag = 0
+	roSticky roFlag = 1
+	roEmbed  roFlag = 2
+)
+
+func rvFlag(v value) roFlag {
 	s := v.(structure)
 	if len(s) > 2 {
-		if b, ok := s[2].(bool); ok {
+		switch b := s[2].(type) {
+		case bool:
+			if b {
+				return roSticky
+			}
+		case roFlag:
 			return b
 		}
 	}
-	return false
+	return roNone
+}
+
+func rvRO(v value) bool { return rvFlag(v) != roNone }
+
+func makeReflectValueFlag(t types.Type, v value, f roFlag) value {
+	if f == roNone {
+		return structure{rtype{t}, v, false}
+	}
+	return structure{rtype{t}, v, f}
 }
 
 // Given a reflect.Value, returns the underlying interpreter value.
@@ -560,7 +586,19 @@ func ext۰reflect۰Value۰Field(fr *frame, args []value) value {
 		panic(runtimeError("reflect: Field index out of range"))
 	}
 	f := st.Field(i)
-	return makeReflectValueRO(f.Type(), rV2V(v).(structure)[i], rvRO(v) || !f.Exported())
+	// inherit the sticky flag, clear the embedded one
+	fl := roNone
+	if rvFlag(v) == roSticky {
+		fl = roSticky
+	}
+	if !f.Exported() {
+		if f.Embedded() && fl == roNone {
+			fl = roEmbed
+		} else {
+			fl = roSticky
+		}
+	}
+	return makeReflectValueFlag(f.Type(), rV2V(v).(structure)[i], fl)
 }
 
 func ext۰reflect۰Value۰FieldByIndex(fr *frame, args []value) value {
@@ -572,11 +610,27 @@ func ext۰reflect۰Value۰FieldByIndex(fr *frame, args []value) value {
 			if pv == nil {
 				panic(runtimeError("reflect: indirection through nil pointer to embedded struct"))
 			}
-			v = makeReflectValueRO(p.Elem(), load(p.Elem(), pv), rvRO(v))
+			v = makeReflectValueFlag(p.Elem(), load(p.Elem(), pv), rvFlag(v))
 		}
 		v = ext۰reflect۰Value۰Field(fr, []value{v, ix})
 	}
 	return v
+}
+
+// FieldByIndexErr reports a nil embedded pointer as an error instead of panicking.
+func ext۰reflect۰Value۰FieldByIndexErr(fr *frame, args []value) value {
+	v := args[0]
+	for _, ix := range args[1].([]value) {
+		if p, ok := rV2T(v).t.Underlying().(*types.Pointer); ok {
+			pv := rV2V(v).(*value)
+			if pv == nil {
+				return tuple{makeReflectValue(nil, nil), fr.i.newError("reflect: indirection through nil pointer to embedded struct field "+p.Elem().String(), iface{})}
+			}
+			v = makeReflectValueFlag(p.Elem(), load(p.Elem(), pv), rvFlag(v))
+		}
+		v = ext۰reflect۰Value۰Field(fr, []value{v, ix})
+	}
+	return tuple{v, iface{}}
 }
 
 func ext۰reflect۰Value۰FieldByName(fr *frame, args []value) value {
